@@ -783,9 +783,9 @@ def _pair_kw(rng, g, base_kw):
     """Per-call options of one parse in a pair history: mostly the history's common options (the same arguments on
     different objects is how leftovers of one call show in another), sometimes none, sometimes something else."""
     k = rng.random()
-    if k < 0.55:
+    if k < 0.7:
         return dict(base_kw)
-    if k < 0.8:
+    if k < 0.85:
         return {}
     k = rng.random()
     if k < 0.3:
@@ -807,7 +807,11 @@ def gen_pair_history(rng, handles):
     base_name = rng.choice(NAMES)
     base_pname = rng.choice(["P", "Q", None])
     base_settings = rng.choice([{}, {}, {}, {"parseinfo": True}, {"nameguard": False}, {"left_recursion": False}])
+    scenario = rng.choice(["models", "models", "parsers", "parsers", "mixed"])
     k = rng.random()
+    if scenario == "parsers":
+        # for long-lived parser objects the start rule and asmodel are the per-call options that matter most
+        k = 0.3 + 0.55 * k if k < 0.9 else 0.9
     if k < 0.25:
         base_kw = {}
     elif k < 0.45:
@@ -819,7 +823,6 @@ def gen_pair_history(rng, handles):
     else:
         base_kw = {"settings": rng.choice([{"parseinfo": True}, {"ignorecase": True}, {"nameguard": False}, {"whitespace": ""}])}
     seqs = []
-    scenario = rng.choice(["models", "models", "parsers", "mixed"])
     for g in (g1, g2):
         if scenario == "models":
             how = rng.choice(["model", "model", "oneshot"])
@@ -858,7 +861,7 @@ def gen_pair_history(rng, handles):
                     pz["builder"] = rng.choice(BUILDER_POOL)
                 seq.append(pz)
         else:
-            c = {"op": "load", "g": g, "name": base_pname if rng.random() < 0.8 else rng.choice(["P", "Q", None])}
+            c = {"op": "load", "g": g, "name": base_pname if rng.random() < 0.93 else rng.choice(["P", "Q", None])}
             _HCTR[0] += 1
             c["out"] = f"p{_HCTR[0]}"
             handles[c["out"]] = c
